@@ -263,6 +263,26 @@ def _(a, b):
     with fresh_axes() as ax:
         P.plot_diagrams(a, ax=ax, lifetime=True, legend=False)
         return [s1, axes_summary(ax)]
+@entry("plot_diagrams(labels, options as containers)", ("dgmspread", "dgm", "dgmspread", "labels", "xyrange"))
+def _(a, b, c, labels, xy):
+    # every container argument, not only the diagrams: a list of labels (shorter, equal or longer than the list of diagrams), a list
+    # of positions, a list of axis limits
+    only = [0, 2]
+    with fresh_axes() as ax:
+        P.plot_diagrams([a, b, c], ax=ax, labels=labels, xy_range=xy)
+        s1 = axes_summary(ax)
+    with fresh_axes() as ax:
+        P.plot_diagrams([a, b, c], ax=ax, plot_only=only, labels=labels if len(labels) >= 3 else None)
+        return [s1, axes_summary(ax), only]
+@entry("matching plots(labels)", ("dgmspread", "dgmspread", "labels2"))
+def _(a, b, labels):
+    d, m = P.bottleneck(a, b, matching=True)
+    with fresh_axes() as ax:
+        P.bottleneck_matching(a, b, m, labels=labels, ax=ax)
+        s1 = axes_summary(ax)
+    with fresh_axes() as ax:
+        P.wasserstein_matching(a, b, P.wasserstein(a, b, matching=True)[1], labels=labels, ax=ax)
+        return [s1, axes_summary(ax)]
 @entry("matching plots", ("dgmspread", "dgmspread"))
 def _(a, b):
     d, m = P.wasserstein(a, b, matching=True)
@@ -344,6 +364,9 @@ def make_pool(rng):
                        {"pixel_size": 1.0, "birth_range": (-1.0, 4.0), "pers_range": (0.0, 5.0), "kernel_params": {"sigma": np.array([[0.5, 0.2], [0.2, 0.4]])}},
                        {"pixel_size": 0.7, "weight": "linear_ramp", "weight_params": {"low": 0.0, "high": 1.0, "start": 0.0, "end": 2.0},
                         "kernel": "uniform", "kernel_params": {"width": 1.0, "height": 2.0}}]
+    pool["labels"] = [["components", "loops"], ["a", "b", "c"], ["only"], ["w", "x", "y", "z"]]
+    pool["labels2"] = [["first", "second"], ["dgm1", "dgm2"]]
+    pool["xyrange"] = [None, [-3.0, 20.0, -3.0, 20.0], [-1.0, 9.0, 0.0, 14.0]]
     pool["shared"] = [make_shared()]
     return pool
 
